@@ -208,6 +208,8 @@ brk('C18', 'R18.9', 'pyiga/tensor.py', 'pyiga.tensor.CanonicalOperator.__init__'
 twin('C18', 'pyiga/tensor.py', 'pyiga.tensor.CanonicalOperator.__init__', r"self\.terms = \[tuple\(t\) for t in terms\]", 'self.terms = list(tuple(term) for term in terms)', 'normalisation spelled with a generator')
 brk('C03', 'R03.12', 'pyiga/_hdiscr.py', 'pyiga._hdiscr.HDiscretization.assemble_matrix', r"for lv in range\(k\):", 'for lv in range(max(0, k - hs.disparity), k):', 'inter-level search bounded by the disparity again')
 twin('C03', 'pyiga/_hdiscr.py', 'pyiga._hdiscr.HDiscretization.assemble_matrix', r"for lv in range\(k\):", 'for lv in range(0, k):', 'explicit start of the level range')
+brk('C05', 'R05.7', 'pyiga/hierarchical.py', 'pyiga.hierarchical.HSpace.prolongate_to', r"for l in range\(lv \+ 1, f_numlevels\):", 'for l in range(lv + 1, min(f_numlevels, lv + max(self.disparity, fine.disparity) + 1)):', 'propagation cut at the disparity again')
+twin('C05', 'pyiga/hierarchical.py', 'pyiga.hierarchical.HSpace.prolongate_to', r"for l in range\(lv \+ 1, f_numlevels\):", 'for l in range(1 + lv, fine.numlevels):', 'finest level spelled fine.numlevels')
 # ---- rules added after the first wave of independently seeded changes (seeded/S01..S08): variants of those changes, and
 #      behaviour-preserving rewrites of the same constructs
 brk('C03', 'R03.7', 'pyiga/_hdiscr.py', 'pyiga._hdiscr.HDiscretization.assemble_matrix', r"(\n(\s*)for lv in range\(max\(0, k - hs\.disparity\), k\):)", r"\1\n\2    if not neighbors[k][lv]:\n\2        continue", 'coarser level skipped inside the accumulation loop')
